@@ -583,7 +583,14 @@ impl<'t, 'a> Gen<'t, 'a> {
                     }
                     _ => {
                         let r = self.expr(d1.min(1));
-                        E::Bin("+", nt.bx(), r.bx())
+                        let sum = E::Bin("+", nt.bx(), r.bx());
+                        if !self.o.plus_enabled && self.o.avoid.plain_sum_operand {
+                            // (known finding: with the plus operator disabled a sum must not be the operand of an instrumented operation)
+                            self.redirect("plain_sum_operand");
+                            sum.paren()
+                        } else {
+                            sum
+                        }
                     }
                 }
             }
